@@ -352,22 +352,61 @@ theorem render_quotation_total (filepath : Str) (lines : List Str) (sm : SourceM
   | ok l => simp
 
 /-- In lark's 1-based terms (`__build_quotation` subtracts 1): a node on line `1 ≤ line ≤ #lines` of an existing file is always
-    quotable; line 0 (a node without position) needs a non-empty file. -/
+    quotable; line 0 (a node without position) needs a non-empty file. Whatever the two guards are. -/
 theorem render_total (arg0 : Arg0) (fileExists : Bool) (filepath : Str) (lines : List Str) (sm1 : SourceMap)
     (h : 0 ≤ sm1.beginLine ∧ sm1.beginLine ≤ lines.length ∧ 0 < lines.length) :
     ∃ out, buildQuotation arg0 fileExists filepath lines sm1 = .ok out := by
-  unfold buildQuotation
+  unfold buildQuotation buildQuotationWith
   split
   · exact ⟨_, rfl⟩
   · split
     · exact ⟨_, rfl⟩
     · split
       · exact ⟨_, rfl⟩
-      · have hq := (render_quotation_total filepath lines
-          ⟨sm1.beginLine - 1, sm1.beginColumn - 1, sm1.endLine - 1, sm1.endColumn - 1⟩).mpr (by simp only; omega)
-        obtain ⟨q, hq⟩ := hq
-        rw [hq]
-        exact ⟨_, rfl⟩
+      · split
+        · exact ⟨_, rfl⟩
+        · have hq := (render_quotation_total filepath lines
+            ⟨sm1.beginLine - 1, sm1.beginColumn - 1, sm1.endLine - 1, sm1.endColumn - 1⟩).mpr (by simp only; omega)
+          obtain ⟨q, hq⟩ := hq
+          rw [hq]
+          exact ⟨_, rfl⟩
+
+/-- The hypothesis of `render_total` is NOT guaranteed by the code: the node may stem from an earlier parse of a file that is shorter
+    now (an imported module edited between two prompts of an interactive session). NEGATIVE, the pinned shape (position guard only):
+    a node on line 5 of a file that holds one line makes `__build_quotation` raise IndexError — out of `str(ErrorRender(e))`.
+    Finding `loop:IndexError@view/error_render.py:ErrorRender.Quotation.__load_line`. -/
+theorem render_quotation_stale_counterexample :
+    buildQuotationWith true false .node true ['m'] [['x', '\n']] ⟨5, 7, 5, 19⟩ = .error indexError := by
+  rfl
+
+/-- With the line guard (proposed/C07-quotation-stale-line.diff; generated flag `quotationLineGuard`) next to the position guard the
+    quotation is TOTAL: for every argument kind, every file content — empty, shorter than at parse time — and every source map,
+    `__build_quotation` returns (a quotation or nothing), it never raises. -/
+theorem render_quotation_guarded_total (arg0 : Arg0) (fileExists : Bool) (filepath : Str) (lines : List Str) (sm1 : SourceMap) :
+    ∃ out, buildQuotationWith true true arg0 fileExists filepath lines sm1 = .ok out := by
+  unfold buildQuotationWith
+  split
+  · exact ⟨_, rfl⟩
+  · split
+    · exact ⟨_, rfl⟩
+    · split
+      · exact ⟨_, rfl⟩
+      · rename_i hspan
+        split
+        · exact ⟨_, rfl⟩
+        · rename_i hline
+          simp only [Bool.true_and, Bool.or_eq_true, decide_eq_true_eq, not_or, Int.not_lt, decide_eq_false_iff_not,
+            Bool.not_eq_eq_eq_not, Bool.not_true, Classical.not_not] at hspan hline
+          have hq := (render_quotation_total filepath lines
+            ⟨sm1.beginLine - 1, sm1.beginColumn - 1, sm1.endLine - 1, sm1.endColumn - 1⟩).mpr (by simp only; omega)
+          obtain ⟨q, hq⟩ := hq
+          rw [hq]
+          exact ⟨_, rfl⟩
+
+/-- non-vacuity: the witness of the counterexample returns no quotation under the line guard; an in-range node is still quoted -/
+example : buildQuotationWith true true .node true ['m'] [['x', '\n']] ⟨5, 7, 5, 19⟩ = .ok [] ∧
+    (match buildQuotationWith true true .node true ['m'] [['x', '\n']] ⟨1, 1, 1, 2⟩ with | .ok out => out.length == 4 | .error _ => false) = true :=
+  ⟨rfl, rfl⟩
 
 example :
     (match buildQuotation .node true ['a','.','p','y'] [['x',' ','=',' ','y','\n'], ['\t','z','\n']] ⟨2, 2, 2, 3⟩ with
@@ -375,8 +414,8 @@ example :
       | .error _ => false) = true := by
   decide +kernel
 
-/-- beyond the last line the builder raises (this is the only way `__build_quotation` can fail on a decodable file) -/
-example : (match buildQuotation .node true ['a'] [['x','\n']] ⟨3, 1, 3, 2⟩ with | .error _ => true | .ok _ => false) = true := by
+/-- without the line guard the builder raises beyond the last line (the only way `__build_quotation` can fail on a decodable file) -/
+example : (match buildQuotationWith quotationSpanGuard false .node true ['a'] [['x','\n']] ⟨3, 1, 3, 2⟩ with | .error _ => true | .ok _ => false) = true := by
   decide
 
 
